@@ -493,6 +493,31 @@ impl Configuration {
     }
 }
 
+/// Verification hook: read-only copy of one dynamic channel.
+#[cfg(feature = "verif-hooks")]
+#[derive(Debug, Clone, Copy, PartialEq, Eq)]
+pub struct VerifChannel {
+    pub frequency: u32,
+    pub dl_frequency: Option<u32>,
+    pub dr_range: u8,
+}
+
+/// Verification hook: read-only copy of the channel plan and mask.
+#[cfg(feature = "verif-hooks")]
+#[derive(Debug, Clone, Copy, PartialEq, Eq)]
+pub struct VerifPlan {
+    pub fixed: bool,
+    pub channel_mask: [u8; 9],
+    pub channels: [Option<VerifChannel>; 16],
+}
+
+#[cfg(feature = "verif-hooks")]
+impl Configuration {
+    pub fn verif_plan(&self) -> VerifPlan {
+        region_dispatch!(self, verif_plan)
+    }
+}
+
 macro_rules! from_region {
     ($r:tt) => {
         impl From<$r> for Configuration {
